@@ -923,6 +923,29 @@ class ReorgFamily(Family):
                 plan.append(dict(op='wait', dt=round(rng.uniform(0.1, 20.0), 2)))
             plan.append(dict(op='mine', n=1, ntx=[2], seed=rng.getrandbits(32)))
             plan.append(dict(op='sync'))
+        if rng.random() < 0.15:
+            # motif: a small reorg limit; the daemon finds a few blocks and - while the server is still fetching /
+            # indexing that batch (slow disk or slow daemon) - reorganises them away onto a branch that is longer
+            # than the limit: blocks of the abandoned branch that were prefetched earlier are indexed after the
+            # daemon's height has been polled again (by the mempool tracker, say)
+            L = k['reorg_limit'] = rng.choice([1, 2, 2, 3])
+            k['stall_p'] = rng.choice([0.05, 0.2])
+            k['preempt'] = True
+            k['daemon_latency'] = rng.choice([(0.01, 1.0), (0.0005, 6.0)])
+            plan.append(dict(op='sync'))
+            for _ in range(rng.randint(1, 3)):
+                n = rng.randint(2, 6)
+                plan.append(dict(op='mine', n=n, ntx=ntx_list(rng, n), seed=rng.getrandbits(32),
+                                 at=round(rng.uniform(0.0, 1.0), 3)))
+                plan.append(dict(op='fork', depth=rng.randint(1, L), extra=rng.choice([L, L + 1, L + 2]),
+                                 ntx=ntx_list(rng, 4), remine=rng.choice([0.0, 0.5, 1.0]),
+                                 at=round(rng.uniform(1.0, 12.0), 3), seed=rng.getrandbits(32)))
+                plan.append(dict(op='wait', dt=round(rng.uniform(2.0, 15.0), 2)))
+                if rng.random() < 0.5:
+                    plan.append(dict(op='mine', n=1, ntx=[2], seed=rng.getrandbits(32)))
+                    plan.append(dict(op='sync'))
+            plan.append(dict(op='mine', n=1, ntx=[2], seed=rng.getrandbits(32)))
+            plan.append(dict(op='sync'))
         if rng.random() < (0.35 if tier == 'thorough' else 0.12):
             plan.append(dict(op='differential'))
         return dict(family='reorg', knobs=k, plan=plan)
